@@ -460,6 +460,7 @@ impl Run {
 
     fn classify_before(&mut self, op: &Op) {
         match op {
+            Op::Touch { n, .. } if *n >= 90 => self.feat("file_end_approached"),
             Op::BatchRead { t, budget, ck, off: None, .. } => {
                 let tm = &self.model.topics[*t as usize];
                 let in_sealed = tm.cursor_in_sealed();
